@@ -1741,12 +1741,13 @@ def PInv (c : PCfg) (s : PState) : Prop :=
 theorem count_snoc_none (hs : List (Option Nat)) (j : Nat) : (hs ++ [none]).count (some j) = hs.count (some j) := by
   simp [List.count_append]
 
-theorem pstep_inv (c : PCfg) (s : PState) (e : Ev) (h : PInv c s) : PInv c (pstep c s e).2 := by
+theorem pstep0_inv (c : PCfg) (s : PState) (e : Ev) (h : PInv c s) : PInv c (pstep0 c s e).2 := by
   unfold PInv at h ⊢
   cases e with
+  | fail k => simpa only [pstep0] using h
   | arrive hold get =>
     have post := attempt_post c hold get c.retries .none s
-    simp only [pstep]
+    simp only [pstep0]
     cases hfin : (attempt c hold get c.retries .none s).2.1 with
     | sent i =>
       simp only
@@ -1804,7 +1805,7 @@ theorem pstep_inv (c : PCfg) (s : PState) (e : Ev) (h : PInv c s) : PInv c (pste
         rw [hl, hh]
         exact ⟨fun j l hl' => by rw [count_snoc_none]; exact h.1 j l hl', h.2⟩
   | fin k =>
-    simp only [pstep]
+    simp only [pstep0]
     split
     · rename_i i hk
       constructor
@@ -1834,8 +1835,55 @@ theorem pstep_inv (c : PCfg) (s : PState) (e : Ev) (h : PInv c s) : PInv c (pste
         · simp [hji] at hl
           exact h.2 j l v hl hv hpos
     · exact h
-  | trip => simpa only [pstep] using h
-  | untrip => simpa only [pstep] using h
+  | trip => simpa only [pstep0] using h
+  | untrip => simpa only [pstep0] using h
+
+theorem addInfo_inv (c : PCfg) (hold : Bool) (x : Nat × Bool) (s : PState) (h : PInv c s) : PInv c (addInfo hold x s) := by
+  unfold addInfo
+  split
+  · exact h
+  · exact h
+
+/-- a request that is not held leaves the books of the held ones alone -/
+theorem attempt_nohold_inv (c : PCfg) (get : Bool) (left : Nat) (prev : PErr) (s : PState) (h : PInv c s) :
+    PInv c (attempt c false get left prev s).2.2 := by
+  have post := attempt_post c false get left prev s
+  unfold PInv at h ⊢
+  cases hfin : (attempt c false get left prev s).2.1 with
+  | sent i =>
+    obtain ⟨_, _, hl, hh⟩ := post.sent_ok i hfin
+    simp only [Bool.false_eq_true, if_false] at hl hh
+    rw [hl, hh]; exact h
+  | status code =>
+    obtain ⟨hl, hh⟩ := post.not_sent (by rw [hfin]; intro i hi; cases hi)
+    rw [hl, hh]; exact h
+  | crashed =>
+    obtain ⟨hl, hh⟩ := post.not_sent (by rw [hfin]; intro i hi; cases hi)
+    rw [hl, hh]; exact h
+  | starved =>
+    obtain ⟨hl, hh⟩ := post.not_sent (by rw [hfin]; intro i hi; cases hi)
+    rw [hl, hh]; exact h
+
+theorem afterLateFail_inv (c : PCfg) (s : PState) (k i : Nat) (hk : s.held[k]? = some (some i)) (h : PInv c s) :
+    PInv c (afterLateFail c s k i) := by
+  have := pstep0_inv c s (.fin k) h
+  simp only [pstep0, hk] at this
+  exact this
+
+theorem pstep_inv (c : PCfg) (s : PState) (e : Ev) (h : PInv c s) : PInv c (pstep c s e).2 := by
+  cases e with
+  | arrive hold get => simp only [pstep]; exact addInfo_inv c _ _ _ (pstep0_inv c s _ h)
+  | fin k => simp only [pstep]; exact pstep0_inv c s _ h
+  | trip => simp only [pstep]; exact pstep0_inv c s _ h
+  | untrip => simp only [pstep]; exact pstep0_inv c s _ h
+  | fail k =>
+    simp only [pstep]
+    split
+    · rename_i i left get hk _
+      split
+      · exact attempt_nohold_inv c get _ _ _ (afterLateFail_inv c s k i hk h)
+      · exact afterLateFail_inv c s k i hk h
+    · exact h
 
 theorem prun_inv (c : PCfg) : ∀ (evs : List Ev) (s : PState), PInv c s → PInv c (prun c s evs).2
   | [], s, h => h
